@@ -34,6 +34,7 @@ def run(cls, acts, n):
     elems = [None] + [E(i) for i in range(1, n + 1)]
     idx = lambda xs: [x.i if isinstance(x, E) else -1 for x in xs]
     obj = cls()
+    other = cls()            # the result of the latest pure operator (or the set parked by Swap)
     events = []
     for act in acts:
         name, args = act[0], act[1:]
@@ -50,6 +51,8 @@ def run(cls, acts, n):
                   res = {'k': 'val', 'v': obj.pop(last=False).i}
               elif name == 'Clear':
                   obj.clear()
+              elif name == 'Swap':
+                  obj, other = other, obj
               elif name in ('IOr', 'IAnd', 'ISub', 'IXor'):
                   ev['q'] = list(args[0])
                   q = [elems[i] for i in args[0]]
@@ -90,6 +93,8 @@ def run(cls, acts, n):
                   res = {'k': 'seq', 'q': idx(bounded(iter(r)))}
                   if type(r) is not cls:
                       res = {'k': 'err', 'e': 'result type %s' % type(r).__name__}
+                  else:
+                      other = r
               elif name in ('IterRemove', 'RevIterRemove'):
                   F = set(args[0])
                   ev['f'] = [False] + [i in F for i in range(1, n + 1)]
@@ -104,8 +109,8 @@ def run(cls, acts, n):
                   ev['q'] = list(args[0])
                   q = [elems[i] for i in args[0]]
                   kind = len(events) % 3
-                  other = cls(q) if kind == 0 else (q if kind == 1 else tuple(q))
-                  b = (obj == other) if name == 'Eq' else (obj != other)
+                  cmp = cls(q) if kind == 0 else (q if kind == 1 else tuple(q))
+                  b = (obj == cmp) if name == 'Eq' else (obj != cmp)
                   res = {'k': 'bool', 'b': bool(b)} if isinstance(b, bool) else {'k': 'err', 'e': repr(b)}
               elif name == 'New':
                   ev['q'] = list(args[0])
@@ -120,7 +125,7 @@ def run(cls, acts, n):
         except Exception as e:                      # any other exception is recorded, not hidden
             res = {'k': 'err', 'e': type(e).__name__}
         ev['res'] = res
-        ev.update({'list': [], 'rev': [], 'len': -1, 'mem': [False] * n, 'oerr': ''})
+        ev.update({'list': [], 'rev': [], 'len': -1, 'mem': [False] * n, 'oerr': '', 'other': []})
         if cls is xtuml.QuerySet:
             ev.update({'first': [], 'last': []})
         try:
@@ -128,6 +133,7 @@ def run(cls, acts, n):
                 ev['list'] = idx(bounded(iter(obj)))
                 ev['rev'] = idx(bounded(reversed(obj)))
                 ev['len'] = len(obj)
+                ev['other'] = idx(bounded(iter(other)))
                 ev['mem'] = [elems[i] in obj for i in range(1, n + 1)]
                 if cls is xtuml.QuerySet:
                     f, l = obj.first, obj.last
